@@ -40,6 +40,8 @@ type lifeState struct {
 	lastPos          string
 	lastErr, lastVal *eng.Term
 	execErr, execVal *eng.Term // results of the latest exec callback (kept across a fallback)
+	lateBudget       *eng.Term // a GetMaxRetries result obtained after an attempt of the running exec phase
+	budgetTested     bool      // a budget test of a retry loop was evaluated in the running exec phase
 	prepVal, prepErr *eng.Term
 	nodeTerm         *eng.Term
 	emptyBatch       bool
@@ -70,12 +72,12 @@ func (s lifeState) Key() string {
 	for _, d := range s.done {
 		sb.WriteString(d.Key() + ";")
 	}
-	fmt.Fprintf(&sb, "|%v,%s,%s|%s,%s", s.waited, s.waitDur.Key(), s.waitTerm.Key(), s.execErr.Key(), s.execVal.Key())
+	fmt.Fprintf(&sb, "|%v,%s,%s|%s,%s,%s", s.waited, s.waitDur.Key(), s.waitTerm.Key(), s.execErr.Key(), s.execVal.Key(), s.lateBudget.Key()+fmt.Sprint(s.budgetTested))
 	return sb.String()
 }
 
 func (s lifeState) Terms() []*eng.Term {
-	out := []*eng.Term{s.lastErr, s.lastVal, s.prepVal, s.prepErr, s.nodeTerm, s.obs, s.waitDur, s.waitTerm, s.execErr, s.execVal}
+	out := []*eng.Term{s.lastErr, s.lastVal, s.prepVal, s.prepErr, s.nodeTerm, s.obs, s.waitDur, s.waitTerm, s.execErr, s.execVal, s.lateBudget}
 	for _, t := range s.timers {
 		out = append(out, t.ch, t.dur)
 	}
@@ -98,7 +100,7 @@ func (s lifeState) Rename(sub func(*eng.Term) *eng.Term) eng.MState {
 	}
 	n := s
 	n.lastErr, n.lastVal, n.prepVal, n.prepErr, n.nodeTerm = m(s.lastErr), m(s.lastVal), m(s.prepVal), m(s.prepErr), m(s.nodeTerm)
-	n.execErr, n.execVal = m(s.execErr), m(s.execVal)
+	n.execErr, n.execVal, n.lateBudget = m(s.execErr), m(s.execVal), m(s.lateBudget)
 	n.obs, n.waitDur, n.waitTerm = m(s.obs), m(s.waitDur), m(s.waitTerm)
 	n.loops = append([]loopRec(nil), s.loops...)
 	n.timers = nil
@@ -205,6 +207,7 @@ func (m *LifeMon) OnEvent(c *eng.Ctx, ms eng.MState, ev *eng.Event) eng.MState {
 		s.timers, s.done = nil, nil
 	case "task-exit":
 		chk("C20.R3", !s.waited || s.cut, "a wait follows the last exec attempt of an item (before the task ends)")
+		m.checkBudgetConsulted(c, s, ev, batch)
 		s = m.endItem(s, "")
 	case "loophead":
 		r := s.rec(ev.Site)
@@ -214,6 +217,7 @@ func (m *LifeMon) OnEvent(c *eng.Ctx, ms eng.MState, ev *eng.Event) eng.MState {
 			if batch && !m.isExecLoop(c, ev) {
 				// end of one item's processing in a batch: nothing of it may influence the next item
 				m.Col.Check("C20.R3", m.variant(c)+"|"+funcLabel(ev.Fn)+":item-loop-iteration", !s.waited || s.cut, ev.Pos, "a wait follows the last exec attempt of an item", pathIf(s.waited && !s.cut, c))
+				m.checkBudgetConsulted(c, s, ev, batch)
 				s = m.endItem(s, ev.Site)
 				r = s.rec(ev.Site)
 			}
@@ -236,6 +240,7 @@ func (m *LifeMon) OnEvent(c *eng.Ctx, ms eng.MState, ev *eng.Event) eng.MState {
 				}
 				if m.isExecLoopHeader(c, ev.Fn, l.Header) {
 					m.checkBudgetTest(c, s, ev, batch, r.chainExecs > 0 && l.Blocks[ev.Succ])
+					s.budgetTested = true
 				}
 			}
 		}
@@ -322,6 +327,9 @@ func (m *LifeMon) OnEvent(c *eng.Ctx, ms eng.MState, ev *eng.Event) eng.MState {
 			}
 		case "cb:GetMaxRetries":
 			chk("C02.R1,C19.R7", ev.Recv != nil && ev.Recv.Contains(m.Node), "the retry budget is read from "+ev.Recv.Pretty()+", not from the node being run")
+			if s.last == "Exec" && len(ev.Results) > 0 {
+				s.lateBudget = ev.Results[0] // read again between attempts: may differ from the budget the phase started with
+			}
 		case "cb:Prep":
 			s = m.onPrep(c, s, ev, batch, chk)
 		case "cb:Exec":
@@ -348,6 +356,7 @@ func (m *LifeMon) endItem(s lifeState, keepLoop string) lifeState {
 	s.obs, s.fresh, s.cut, s.waited, s.waitDur = nil, false, false, false, nil
 	s.timers, s.done = nil, nil
 	s.last, s.lastErr, s.lastVal, s.lastPos = "Item", nil, nil, ""
+	s.lateBudget, s.budgetTested = nil, false
 	s.execLoop = ""
 	s.waitTerm = nil
 	var keep []loopRec
@@ -405,6 +414,9 @@ func (m *LifeMon) checkBudgetTest(c *eng.Ctx, s lifeState, ev *eng.Event, batch 
 	con := m.variant(c) + "|" + funcLabel(ev.Fn) + ":budget-test"
 	ok, msg := true, ""
 	for _, t := range evs {
+		if s.lateBudget != nil && t == s.lateBudget {
+			ok, msg = false, "the attempt counter is tested against a budget that was read again after an attempt of the same exec phase: the number of attempts is no longer the budget the phase started with"
+		}
 		if !(t.I == 0 && c.E.SiteClass[t.S] == "cb:GetMaxRetries") {
 			ok, msg = false, "the attempt counter is tested against "+t.Pretty()+", which is not the node's GetMaxRetries() value"
 		}
@@ -604,7 +616,28 @@ func (m *LifeMon) onFallback(c *eng.Ctx, s lifeState, ev *eng.Event, batch bool,
 	return s
 }
 
+// checkBudgetConsulted: an exec phase that has run an attempt went through a retry loop's budget
+// test (C02.R1): an attempt made outside any such loop gives a node with retry settings a fixed
+// single attempt.
+func (m *LifeMon) checkBudgetConsulted(c *eng.Ctx, s lifeState, ev *eng.Event, batch bool) {
+	if s.last != "Exec" && s.last != "Fb" {
+		return
+	}
+	ok := s.budgetTested
+	if !ok {
+		node := m.Node
+		if s.nodeTerm != nil {
+			node = s.nodeTerm
+		}
+		ok = c.Eval(eng.TAOk(node, m.R.Retryable)) == eng.TriFalse
+	}
+	m.Col.Check(retag("C02.R1", batch), m.variant(c)+"|"+funcLabel(ev.Fn)+":budget-consulted", ok, ev.Pos, "an exec phase ran an attempt without going through the budget test of a retry loop: a node with retry settings (and its fallback) is given a fixed single attempt", pathIf(!ok, c))
+}
+
 func (m *LifeMon) onPost(c *eng.Ctx, s lifeState, ev *eng.Event, batch bool, chk func(string, bool, string)) lifeState {
+	// (on a batch path an item's phase normally ends with its loop iteration or task; one that is
+	// still open at post ran outside both)
+	m.checkBudgetConsulted(c, s, ev, batch)
 	chk("C01.R3", s.nPost == 0, "post is invoked a second time in one run")
 	if !batch {
 		ok := (s.last == "Exec" || s.last == "Fb") && knownNil(c, s.lastErr)
@@ -723,6 +756,16 @@ func (m *LifeMon) onReturn(c *eng.Ctx, s lifeState, ev *eng.Event, batch bool) {
 		}
 	default:
 		ck("C01.R5", false, "nil-ness of the returned error "+err.Pretty()+" is not established on this path (action "+act.Pretty()+")")
+		// if that error can be nil, this is a successful return: the action must then be non-empty
+		nonEmpty := false
+		if sc, isC := act.StringConst(); isC {
+			nonEmpty = sc != ""
+		} else {
+			nonEmpty = c.Eval(eng.Bin("==", act, eng.ConstString(""))) == eng.TriFalse
+		}
+		if !nonEmpty {
+			m.Col.CheckAt("C18.R1,C10.R9", v+"|Run:success-return", false, posStr(ev.Pos), "the run returns the action "+act.Pretty()+" together with an error that may be nil ("+err.Pretty()+"): a successful run would yield the empty action", pathIf(true, c))
+		}
 	}
 }
 
